@@ -17,7 +17,10 @@ import (
 	protoV1 "github.com/golang/protobuf/proto"   //nolint
 	"google.golang.org/protobuf/encoding/protojson"
 	"google.golang.org/protobuf/proto"
+	"google.golang.org/protobuf/reflect/protodesc"
+	"google.golang.org/protobuf/reflect/protoregistry"
 	"google.golang.org/protobuf/types/descriptorpb"
+	"google.golang.org/protobuf/types/dynamicpb"
 	"google.golang.org/protobuf/types/known/durationpb"
 	"google.golang.org/protobuf/types/known/timestamppb"
 	"google.golang.org/protobuf/types/known/typepb"
@@ -257,6 +260,38 @@ func streamC18(r *hx.Rng) {
 			res = "ok"
 		}
 		sink.Add("json-unmarshal", fmt.Sprintf("S JU %s unknown=0,partial=%s missingrequired", jcapsOf(g, false), b2s(partial)), res, true)
+	}
+	// a proto3 message CONTAINING a proto2 message with a required field (dynamic types built from descriptors): the
+	// nested required field missing is tolerated iff requested, exactly as protojson itself decides
+	{
+		p2 := &descriptorpb.FileDescriptorProto{Name: proto.String("verif/json_p2.proto"), Package: proto.String("verif.jp2"), Syntax: proto.String("proto2"),
+			MessageType: []*descriptorpb.DescriptorProto{{Name: proto.String("Device"), Field: []*descriptorpb.FieldDescriptorProto{
+				{Name: proto.String("id"), JsonName: proto.String("id"), Number: proto.Int32(1), Type: descriptorpb.FieldDescriptorProto_TYPE_INT32.Enum(), Label: descriptorpb.FieldDescriptorProto_LABEL_REQUIRED.Enum()},
+				{Name: proto.String("note"), JsonName: proto.String("note"), Number: proto.Int32(2), Type: descriptorpb.FieldDescriptorProto_TYPE_STRING.Enum(), Label: descriptorpb.FieldDescriptorProto_LABEL_OPTIONAL.Enum()}}}}}
+		p3 := &descriptorpb.FileDescriptorProto{Name: proto.String("verif/json_p3.proto"), Package: proto.String("verif.jp3"), Syntax: proto.String("proto3"), Dependency: []string{"verif/json_p2.proto"},
+			MessageType: []*descriptorpb.DescriptorProto{{Name: proto.String("Report"), Field: []*descriptorpb.FieldDescriptorProto{
+				{Name: proto.String("dev"), JsonName: proto.String("dev"), Number: proto.Int32(1), Type: descriptorpb.FieldDescriptorProto_TYPE_MESSAGE.Enum(), TypeName: proto.String(".verif.jp2.Device"), Label: descriptorpb.FieldDescriptorProto_LABEL_OPTIONAL.Enum()},
+				{Name: proto.String("devs"), JsonName: proto.String("devs"), Number: proto.Int32(2), Type: descriptorpb.FieldDescriptorProto_TYPE_MESSAGE.Enum(), TypeName: proto.String(".verif.jp2.Device"), Label: descriptorpb.FieldDescriptorProto_LABEL_REPEATED.Enum()},
+				{Name: proto.String("n"), JsonName: proto.String("n"), Number: proto.Int32(3), Type: descriptorpb.FieldDescriptorProto_TYPE_INT32.Enum(), Label: descriptorpb.FieldDescriptorProto_LABEL_OPTIONAL.Enum()}}}}}
+		files := new(protoregistry.Files)
+		f2, err := protodesc.NewFile(p2, files)
+		hx.Must(err)
+		hx.Must(files.RegisterFile(f2))
+		f3, err := protodesc.NewFile(p3, files)
+		hx.Must(err)
+		md := f3.Messages().Get(0)
+		for _, js := range []string{`{"dev":{"note":"x"},"n":1}`, `{"devs":[{"id":1},{"note":"y"}]}`, `{"dev":{"id":4}}`, `{"n":2}`} {
+			for _, partial := range []bool{false, true} {
+				d1, d2 := dynamicpb.NewMessage(md), dynamicpb.NewMessage(md)
+				got := csproto.JSONUnmarshaler(d1, csproto.JSONAllowPartialMessages(partial)).UnmarshalJSON([]byte(js))
+				want := protojson.UnmarshalOptions{AllowPartial: partial}.Unmarshal([]byte(js), d2)
+				sink.OracleN++
+				if (got == nil) != (want == nil) || got == nil && !proto.Equal(d1, d2) {
+					fail("the unmarshaling adapter decides differently from protojson on a proto3 message containing a proto2 message with a required field",
+						fmt.Sprintf("json=%s partial=%v", js, partial), fmt.Sprint(want), fmt.Sprint(got), "json-partial-nested")
+				}
+			}
+		}
 	}
 	// nil handling
 	var nilMsg *typepb.Field
